@@ -12,7 +12,7 @@ from . import hist as H
 from .props import c02 as V
 from .props import c05 as S
 
-SUBQ, QDROP = 40, 41
+SUBQ, QDROP, SUBQS = 40, 41, 42
 OPS = ["AND", "OR", "=", "<>", ">", ">=", "<", "<="]
 OTHER_OPS = ["+", "-", "*", "/", "LIKE", "||"]
 NUMERIC = [2, 3, 4, 5, 6, 7, 8, 9, 10, 11]       # data type codes Int8..Double
@@ -156,10 +156,44 @@ def query_sql(proj, where, extras=0):
     return s
 
 
-def subq_line(p, proj, where, extras=0):
+def subq_line(p, proj, where, extras=0, sdv=False):
+    """sdv: the subscription is opened through sdv.databroker.v1 Broker::Subscribe instead of the core API"""
     proj = [(it[0], norm(it[1])) + tuple(it[2:]) if it[0] != "wild" else it for it in proj]
     where = norm(where) if where is not None else None
-    return [SUBQ, p, extras] + E.s(query_sql(proj, where, extras)) + query_tokens(proj, where)
+    return [SUBQS if sdv else SUBQ, p, extras] + E.s(query_sql(proj, where, extras)) + query_tokens(proj, where)
+
+
+def as_map(fs):
+    """the fields of a response as the sdv handler reports them: a map (a repeated name keeps the last value),
+    read back sorted by name"""
+    return sorted(dict(fs).items())
+
+
+def canon_sdv(lines, out):
+    """rewrites the responses of subscriptions opened through the sdv handler into their map form, so that the
+    model's ordered field lists and the handler's maps can be compared"""
+    al = split_outputs(lines, out)
+    if al is None:
+        return out
+    sdv = set()
+    res = []
+    for d, o in al:
+        if d["name"] == "SUBQ" and d.get("sdv") and o and o[0][:1] == [0] and len(o[0]) > 1:
+            sdv.add(o[0][1])
+        for l in o:
+            if l and l[0] == 110 and len(l) > 2 and l[1] in sdv:
+                try:
+                    h, fs = dec_response(l)
+                    m = as_map(fs)
+                    x = [110, h, len(m)]
+                    for n, v in m:
+                        x += E.s(n) + E.val(*v)
+                    res.append(x)
+                    continue
+                except (IndexError, TypeError, ValueError):
+                    pass
+            res.append(l)
+    return res
 
 
 # ---------------------------------------------------------------- generator
@@ -397,7 +431,7 @@ def gen_case(rng, length=(10, 40)):
             extras = 0
             if r.random() < 0.05:
                 extras = r.choice([1, 2, 4, 8, 16, 32])
-            L.append(subq_line(who(), proj, where, extras))
+            L.append(subq_line(who(), proj, where, extras, sdv=r.random() < 0.3))
             nsub += 1          # an upper bound: refused queries get no handle
         elif c < 0.9:
             update()
@@ -459,7 +493,7 @@ def cross_case(rng):
         where = ("bin", op, a, b)
         if r.random() < 0.2:
             where = ("not", where)
-        L.append(subq_line(0, [("expr", ("id", pa)), ("expr", ("id", pb))], where, 0))
+        L.append(subq_line(0, [("expr", ("id", pa)), ("expr", ("id", pb))], where, 0, sdv=r.random() < 0.3))
     if r.random() < 0.5:
         L.append(subq_line(0, [("expr", ("id", pa))], ("between", ("id", pa), r.random() < 0.3, ("id", pb), ("id", pb)), 0))
     for _ in range(r.randrange(8, 20)):
@@ -498,11 +532,11 @@ def parse_lines(lines):
     """-> list of dicts, one per operation"""
     ops = []
     for l in lines:
-        if l[0] == SUBQ:
+        if l[0] in (SUBQ, SUBQS):
             n = l[3]
             txt = bytes(l[4:4 + n]).decode("utf-8", "replace")
             q = dec_query(l[4 + n:]) if not l[2] & 64 else None
-            ops.append({"name": "SUBQ", "p": l[1], "extras": l[2], "sql": txt, "query": q})
+            ops.append({"name": "SUBQ", "p": l[1], "extras": l[2], "sql": txt, "query": q, "sdv": l[0] == SUBQS})
         elif l[0] == QDROP:
             ops.append({"name": "QDROP", "h": l[1]})
         else:
@@ -1018,7 +1052,7 @@ def monitor(lines, out):
                 fails.append("C12-accept: a query of the supported subset was refused (kind %d): %s" % (o[0][1], d["sql"]))
             if accepted:
                 h = o[0][1]
-                s = {"h": h, "p": d["p"], "sql": d["sql"], "v": verdict, "open": True, "dead": False}
+                s = {"h": h, "p": d["p"], "sql": d["sql"], "v": verdict, "open": True, "dead": False, "sdv": d.get("sdv")}
                 subs[h] = s
                 if verdict[0] == "ok":
                     fails += judge(s, o[1:], None, store, before, P, ticked, initial=True)
@@ -1181,6 +1215,10 @@ def judge(s, got, change, store, before, P, ticked, initial=False):
                          "condition holds" % (s["h"], s["sql"]))
         return fails
     fs = got[0]
+    if s.get("sdv"):
+        # through the sdv handler a response is a map name -> datapoint
+        judged = as_map(judged)
+        fs = as_map(fs)
     if [n for n, _ in fs] != [n for n, _ in judged]:
         fails.append("C12-names: subscription %d (%s) got fields %s, expected %s" % (
             s["h"], s["sql"], [n for n, _ in fs], [n for n, _ in judged]))
@@ -1198,7 +1236,8 @@ def pretty(lines):
     out = []
     for d in parse_lines(lines):
         if d["name"] == "SUBQ":
-            out.append("SUBSCRIBE-QUERY p%d %r%s" % (d["p"], d["sql"], " (free text)" if d["extras"] & 64 else ""))
+            out.append("SUBSCRIBE-QUERY p%d %r%s%s" % (d["p"], d["sql"], " (free text)" if d["extras"] & 64 else "",
+                                                        " (through sdv Subscribe)" if d.get("sdv") else ""))
         elif d["name"] == "QDROP":
             out.append("QUERY-DROP %d" % d["h"])
         else:
